@@ -25,7 +25,7 @@ ASSUMPTIONS = ["exclusion sets are sets of edge ids (vertex / face trees) or fac
 
 def cases(seed, tier):
     rng = random.Random(seed * 48271 + 10)
-    n = 360 if tier == "quick" else 8000
+    n = 360 if tier == "quick" else 80000
     out = [{"gen": ["polyline", "surface", "surface", "volume"][i % 4], "seed": rng.randrange(2 ** 31)} for i in range(n)]
     out += [{"gen": "hexes", "seed": rng.randrange(2 ** 31)} for i in range(n // 12)]
     return out
